@@ -1428,6 +1428,7 @@ class Extractor:
         # starts using another small helper of the class
         if a.get('class') and kind != 'free' and blk.kind != 'region' and a.get('autoinline', '1') == '1':
             known = set(blk.callmap) | set(x.split('@')[0] for x in blk.inlines)
+            pending_extract = []
             for cand in sorted(set(re.findall(r'(?<![\w.>:])([a-z_]\w*)\s*\(', inner))):
                 if cand in known or cand in ('if', 'while', 'for', 'switch', 'return', 'sizeof') or cand.startswith('cm_') or cand == a['name']:
                     continue
@@ -1437,22 +1438,10 @@ class Extractor:
                         continue
                     cbody = src.text[cdefs[0]['body_lb'] + 1:cdefs[0]['body_rb']].strip()
                     if not re.match(r'^return\b[^;]*;$', cbody, re.S):
-                        # a helper with a real body (e.g. introduced by a refactoring): extracted as a C function of
-                        # its own with the caller's unit rewrites (none of them must fire) and called from here
+                        # a helper with a real body (e.g. introduced by a refactoring): candidate for extraction as a C
+                        # function of its own - decided AFTER the unit rewrites, which may already account for the call
                         if a.get('autoextract', '1') == '1' and not a.get('_helper'):
-                            hname = '%s__%s' % (a['cname'], cand)
-                            hb = Block('function', dict(file=a['file'], name=cand, cname=hname, _helper='1'), blk.lineno)
-                            hb.attrs['class'] = a['class']
-                            for kk in ('self', 'struct', 'constref'):
-                                if kk in a:
-                                    hb.attrs[kk] = a[kk]
-                            hb.rewrites = [(rx, rp, 0) for (rx, rp, mn) in blk.rewrites]
-                            hb.callmap = dict(blk.callmap)
-                            hb.end_line = blk.lineno
-                            htxt = self.function(hb, member_names_by_class)
-                            self._helper_texts.append(htxt)
-                            inner, kh = re.subn(r'(?<![\w.>:])' + re.escape(cand) + r'\s*\(', hname + '(', inner)
-                            rep['rules']['auto_extract_helper:%s' % cand] = kh
+                            pending_extract.append(cand)
                         continue
                     inner, k = self.inline_calls(inner, cand, a['file'], a['class'], rep)
                     if k:
@@ -1480,6 +1469,25 @@ class Extractor:
             rep['rewrites'].append(dict(regex=rx, repl=repl, hits=k, min=mn))
             if k < mn:
                 raise ExtractionError('%s: must-fire rewrite %r fired %d < %d times' % (a['cname'], rx, k, mn))
+        for cand in (pending_extract if (a.get('class') and kind != 'free' and blk.kind != 'region' and a.get('autoinline', '1') == '1') else []):
+            if not re.search(r'(?<![\w.>:])' + re.escape(cand) + r'\s*\(', inner):
+                continue
+            hname = '%s__%s' % (a['cname'], cand)
+            hb = Block('function', dict(file=a['file'], name=cand, cname=hname, _helper='1'), blk.lineno)
+            hb.attrs['class'] = a['class']
+            for kk in ('self', 'struct', 'constref'):
+                if kk in a:
+                    hb.attrs[kk] = a[kk]
+            hb.rewrites = [(rx, rp, 0) for (rx, rp, mn) in blk.rewrites]
+            hb.callmap = dict(blk.callmap)
+            hb.end_line = blk.lineno
+            try:
+                htxt = self.function(hb, member_names_by_class)
+            except ExtractionError:
+                continue  # not extractable: the call stays as it is (and fails to compile if it matters)
+            self._helper_texts.append(htxt)
+            inner, kh = re.subn(r'(?<![\w.>:])' + re.escape(cand) + r'\s*\(', hname + '(', inner)
+            rep['rules']['auto_extract_helper:%s' % cand] = kh
         if a.get('opaque') and blk.kind != 'region':
             mv = [x for x in a.get('opaquemembers', '').split(',') if x]
             is_const = bool(re.search(r'\)\s*const\b', text[d['start']:d['body_lb']]))
